@@ -198,6 +198,79 @@ theorem C14_sequence_independent (L : Nat) (rs : List Req) :
     simp only [serveAll, List.map_cons]
     rw [ih, C14_no_carry L lo 0 r]
 
+/-! ### stacked instances -/
+
+theorem lrRead_stack (A B read : Nat) (u : Resp) :
+    lrRead B read (lrRead A read u).2 = lrRead (min A B) read u
+      ∧ (lrRead A read u).1 = read + u.data.length := by
+  unfold lrRead
+  by_cases hA : read + u.data.length > A <;> by_cases hB : read + u.data.length > B
+  all_goals simp only [hA, hB, if_true, if_false]
+  all_goals refine ⟨?_, by trivial⟩
+  all_goals (split <;> first | rfl | omega)
+
+theorem lrRun_stack (A B : Nat) (us : List Resp) :
+    ∀ read, (lrRun B read (lrRun A read us).2).2 = (lrRun (min A B) read us).2 := by
+  induction us with
+  | nil => intro _; rfl
+  | cons u us ih =>
+    intro read
+    obtain ⟨h1, h2⟩ := lrRead_stack A B read u
+    simp only [lrRun]
+    rw [h1]
+    have h3 : (lrRead (min A B) read u).1 = read + u.data.length := by simp only [lrRead]; split <;> rfl
+    rw [h2, h3, ih]
+
+/-- **C14_nested_min** — two stacked instances behave, for the handler, exactly like one instance
+    with the smaller of the two limits: neither limit can be exceeded unnoticed, and the more
+    generous one never switches the stricter one off. -/
+theorem C14_nested_min (A B loA loB lo : Nat) (r : Req) :
+    (serveNested A B loA loB r).1 = (serve (min A B) lo r).1 := by
+  unfold serveNested serve
+  have hmin : (r.declared > ((min A B : Nat) : Int)) ↔ (r.declared > (A : Int) ∨ r.declared > (B : Int)) := by
+    omega
+  by_cases hA : r.declared > (A : Int)
+  · simp [hA, hmin]
+  · by_cases hB : r.declared > (B : Int)
+    · simp [hA, hB, hmin]
+    · have : ¬ r.declared > ((min A B : Nat) : Int) := by rw [hmin]; simp [hA, hB]
+      simp only [hA, hB, this, if_false]
+      congr 1
+      exact lrRun_stack A B r.under 0
+
+/-- every request of a sequence through the application behaves as if it were the first one, with
+    the limit(s) of its own route only: nothing carries over between requests, between instances
+    or between routes -/
+theorem C14_sequence_independent_nested (L : Nat) (rs : List (Option Nat × Req)) :
+    ∀ loA loB, serveAllN L loA loB rs
+      = rs.map (fun p => match p.1 with
+          | none => (serve L 0 p.2).1
+          | some B => (serve (min L B) 0 p.2).1) := by
+  induction rs with
+  | nil => intro _ _; rfl
+  | cons p rs ih =>
+    intro loA loB
+    obtain ⟨i, r⟩ := p
+    cases i with
+    | none =>
+      simp only [serveAllN, List.map_cons]
+      rw [ih, C14_no_carry L loA 0 r]
+    | some B =>
+      simp only [serveAllN, List.map_cons]
+      rw [ih, C14_nested_min L B loA loB 0 r]
+
+/-- without route-level instances the wire function is the single-instance model -/
+theorem serveAllN_none (L : Nat) (rs : List Req) :
+    ∀ loA loB, serveAllN L loA loB (rs.map (fun r => (none, r))) = serveAll L loA rs := by
+  induction rs with
+  | nil => intro _ _; rfl
+  | cons r rs ih => intro loA loB; simp only [List.map_cons, serveAllN, serveAll, ih]
+
+example : (serveNested 4 9 3 3 ⟨-1, [⟨[1,2,3], .none⟩, ⟨[4,5], .eof⟩]⟩).1
+    = .ran [⟨[1,2,3], .none⟩, ⟨[4,5], .tooLarge⟩] := by decide
+example : (serveNested 9 4 3 3 ⟨-1, [⟨[1,2,3], .none⟩, ⟨[4,5], .eof⟩]⟩).1
+    = .ran [⟨[1,2,3], .none⟩, ⟨[4,5], .tooLarge⟩] := by decide
+
 /-! ### non-vacuity: the hypotheses are met by concrete, non-trivial instances -/
 
 example : total [⟨[1,2,3], .none⟩, ⟨[4,5], .eof⟩] > 4 ∧ (2 : Nat) < 3 := by decide
